@@ -6,6 +6,7 @@ mod bus;
 mod c01;
 mod c02;
 mod c07;
+pub mod c13;
 mod c17;
 
 use util::*;
@@ -27,6 +28,7 @@ fn main() {
         "C01" => c01::run,
         "C02" => c02::run,
         "C07" => c07::run,
+        "C13" => c13::run,
         "C17" => c17::run,
         _ => {
             eprintln!("unknown property {}", prop);
